@@ -67,6 +67,7 @@ func TestVerifC13Race(t *testing.T) {
 			ws[w] = wk
 		}
 		var wg sync.WaitGroup
+		churnHist := i%3 == 2
 		stop := make(chan struct{})
 		var saveErr error
 		var saveMtx sync.Mutex
@@ -139,7 +140,7 @@ func TestVerifC13Race(t *testing.T) {
 						saveErr = err
 						saveMtx.Unlock()
 					}
-					if i%3 != 2 {
+					if !churnHist {
 						time.Sleep(time.Duration(fr.Intn(200)) * time.Microsecond)
 					}
 				}
